@@ -379,3 +379,12 @@ def run(ctx):
 
 EXPLANATION = EXPLANATION + " " + (
     "R03.9 (replay.py): the repository's own constructor, __call__, tree search (through the trampoline), splitting and bridge formulas are evaluated by the abstract evaluator on exact rational times with one symbolic unit normal per seeded draw -- nothing of the tree is mocked, the library is never run; after each of three query histories (fresh object; forward-then-backward sweep; adaptive-looking history with rejected trials and the dyadic half-then-step pattern) triples s < u < t are asked with the whole interval first, in the middle or last, and W(s,t) = W(s,u) + W(u,t), U(s,t) = U(s,u) + U(u,t) + (t-u) W(s,u) must hold as identities of canonical forms; configurations: cache sizes 0, 1, 45 / 0..4, 45, unbounded, dt hints, tolerance with and without the dyadic tree (queries moved onto the tolerance grid: the property speaks of resolved times), Levy mode none. R03.2 is also evaluated for pieces exactly one tolerance cell long and for pieces shorter than a tolerance that is coarser than its rounding grid.")
+
+
+_run_before_r03_10 = run
+
+
+def run(ctx):
+    _run_before_r03_10(ctx)
+    from . import replay_rules
+    ctx.guard(replay_rules.r03_10)
